@@ -96,6 +96,32 @@ func c14ErrorPositions(r *Run) {
 		r.Check(ok2, rule, "newParseError offset argument in "+w.FnName(u.Fn), u.Pos(), why, "the error offset must be the parser position (or one saved earlier), got "+why)
 	}
 	r.Floor(rule, "newParseError call sites", nCalls, 1)
+	// offsets are relative to the caller's text: the parser's input is the entry point's argument,
+	// stored unchanged (a trimmed or re-sliced copy would shift every reported position)
+	nIn := 0
+	for _, fu := range w.fieldUses(fInput) {
+		if fu.Kind != "store" || !w.IsProd(fu.Fn) {
+			continue
+		}
+		nIn++
+		st := fu.Instr2.(*ssa.Store)
+		_, isParam := st.Val.(*ssa.Parameter)
+		r.Check(isParam, rule, "Parser.input stored in "+w.FnName(fu.Fn), st.Pos(), "the caller's string, unchanged", "the text positions are reported against must be exactly the string the caller passed, stores "+render(st.Val))
+		if isParam {
+			// and every caller passes its own parameter on unchanged
+			idx := paramIndexOf(st.Val.(*ssa.Parameter))
+			for _, u := range w.usesOf(fu.Fn) {
+				if !w.IsProd(u.Fn) {
+					continue
+				}
+				if call, ok := u.Instr.(ssa.CallInstruction); ok && idx < len(call.Common().Args) {
+					_, p2 := call.Common().Args[idx].(*ssa.Parameter)
+					r.Check(p2, rule, "input handed to "+fu.Fn.Name()+" by "+w.FnName(u.Fn), u.Pos(), "the entry point's own argument", "the parser must be initialised with the caller's text unchanged, passes "+render(call.Common().Args[idx]))
+				}
+			}
+		}
+	}
+	r.Floor(rule, "stores to Parser.input", nIn, 1)
 	// saved positions: locals passed to errfAt are loads of p.pos taken earlier (start := p.pos)
 	errfAt := w.Fn("sml", "Parser.errfAt")
 	for _, u := range w.usesOf(errfAt) {
@@ -253,6 +279,28 @@ func c14ErrorPositions(r *Run) {
 	}
 }
 
+// isPlainData: basic values, strings and arrays/structs of them — no pointer, map, slice,
+// channel, function, interface or sync primitive inside.
+func isPlainData(t types.Type) bool {
+	switch u := t.Underlying().(type) {
+	case *types.Basic:
+		return true
+	case *types.Array:
+		return isPlainData(u.Elem())
+	case *types.Struct:
+		if n, ok := t.(*types.Named); ok && n.Obj().Pkg() != nil && (n.Obj().Pkg().Path() == "sync" || n.Obj().Pkg().Path() == "sync/atomic") {
+			return false
+		}
+		for i := 0; i < u.NumFields(); i++ {
+			if !isPlainData(u.Field(i).Type()) {
+				return false
+			}
+		}
+		return true
+	}
+	return false
+}
+
 func c14NoSharedState(r *Run) {
 	const rule = "C14-R5-no-shared-state"
 	w := r.W
@@ -314,6 +362,37 @@ func c14NoSharedState(r *Run) {
 		})
 	}
 	r.Floor(rule, "stores to Parser/Encoder fields", nStores, 10)
+	// package-level variables *used* by the parse/encode code: only error sentinels (loaded,
+	// never stored) and read-only tables may be referenced — a pool, cache or map shared by
+	// all instances is mutable state even when no Store to the variable itself exists
+	nGlobRefs := 0
+	for _, fn := range w.FnsInPkg("sml") {
+		if !w.IsProd(fn) || fn.Name() == "init" {
+			continue
+		}
+		seen := map[*ssa.Global]bool{}
+		eachInstr(fn, func(in ssa.Instruction) {
+			for _, op := range in.Operands(nil) {
+				g, ok := (*op).(*ssa.Global)
+				if !ok || seen[g] {
+					continue
+				}
+				seen[g] = true
+				nGlobRefs++
+				t := derefType(g.Type())
+				construct := "package variable " + g.Name() + " referenced in " + w.FnName(fn)
+				switch {
+				case isErrorType(t):
+					r.OK(rule, construct, in.Pos(), "error sentinel")
+				case isPlainData(t):
+					r.OK(rule, construct, in.Pos(), "plain data of type %s (writes are decided above)", typeShort(t))
+				default:
+					r.Fail(rule, construct, in.Pos(), "a package-level %s is state shared by every parser/encoder instance", typeShort(t))
+				}
+			}
+		})
+	}
+	r.Stats[rule+":package-variable references"] = nGlobRefs
 	r.Stats[rule+":package-variable stores"] = nGlobals
 	// option closures run only inside the constructors
 	for _, ctor := range []string{"NewParser", "NewEncoder"} {
